@@ -1,0 +1,24 @@
+//go:build verif
+// +build verif
+
+/*
+SPDX-License-Identifier: Apache-2.0
+*/
+
+package wallet
+
+// VerifCreateSession calls the session manager's createSession for a user without key manager (verification hook).
+func VerifCreateSession(userID string) (string, error) {
+	return sessionManager().createSession(userID, nil, 0)
+}
+
+// VerifCloseSession calls the session manager's closeSession (verification hook).
+func VerifCloseSession(userID string) bool {
+	return sessionManager().closeSession(userID)
+}
+
+// VerifSessionAlive tells whether the token names a live session (verification hook).
+func VerifSessionAlive(token string) bool {
+	_, err := sessionManager().getSession(token)
+	return err == nil
+}
